@@ -106,10 +106,19 @@ func otherValue(which string) interface{} {
 var capBits = map[string]int{"String": 1, "GoString": 2, "Error": 4, "Height": 8, "Width": 16}
 
 func payloadOf(d M) *payload {
-	return &payload{
+	p := &payload{
 		Strv: itemStr(d, "strv"), Gov: itemStr(d, "gov"), Errv: itemStr(d, "errv"),
 		H: opIntDef(d, "h", 0), W: opIntDef(d, "w", 0), Tag: "t",
 	}
+	// the extreme of "declared size disagrees with the text" (TLC's integers are 32 bits wide, so the
+	// value travels as a flag)
+	if opIntDef(d, "hmax", 0) == 1 {
+		p.H = math.MaxInt
+	}
+	if opIntDef(d, "wmax", 0) == 1 {
+		p.W = math.MaxInt
+	}
+	return p
 }
 
 func capMask(d M) int {
@@ -304,12 +313,17 @@ func sameItem(a, b interface{}) bool {
 		if f, ok := a.(float64); ok && math.IsNaN(f) {
 			return math.IsNaN(b.(float64))
 		}
-		if ta == reflect.TypeOf(tabular.Cell{}) {
-			return true // Cell holds an interface; compared through its text elsewhere
+		if ca, ok := a.(tabular.Cell); ok {
+			// a Cell stored as an item: the same item inside
+			return sameItem(ca.Item(), b.(tabular.Cell).Item())
 		}
 		return a == b
 	}
-	return reflect.DeepEqual(a, b)
+	if reflect.DeepEqual(a, b) {
+		return true
+	}
+	// (DeepEqual separates a value from itself when a NaN sits inside a container)
+	return fmt.Sprintf("%#v", a) == fmt.Sprintf("%#v", b)
 }
 
 // latin1 maps a byte string to a string with one rune per byte (transport of
